@@ -1865,3 +1865,88 @@ Proof.
     exact (proj1 (sort_posts_perm _ _ _ S)). }
   split; [exact P|]. intros cm. rewrite (calc_grand_total s r cm C). symmetry. now apply sum_den_perm.
 Qed.
+
+(* ---- subtotal_posts fed by another subtotalling handler (resubtotal) ----
+   On postings that all carry a plain amount (no POST_EXT_COMPOUND posting among them; the
+   generated postings are never POST_VIRTUAL in the model) it is subtotal_posts as before. *)
+Definition plain_post (p : post) : Prop := (exists a, pamt p = VAmt a) /\ pvirt p = false.
+
+Definition sub2_conv (m : list (str * sub_state)) : values_map :=
+  map (fun e => (fst e, (sub2_value (snd e), false))) m.
+
+Definition sub2_proper (m : list (str * sub_state)) : Prop :=
+  Forall (fun e => exists v, snd e = SVal v) m.
+
+Lemma sub2_insert_sim k p m m' :
+  plain_post p -> sub2_proper m -> sub2_insert k p m = Ok m' ->
+  sub2_proper m' /\
+  exists a, pamt p = VAmt a /\ sub_insert k (VAmt a) false (sub2_conv m) = Ok (sub2_conv m').
+Proof.
+  intros [[a Ha] Hv]. revert m'. induction m as [|[k' s] m IH]; intros m' P H; cbn [sub2_insert] in H.
+  - injection H as <-. unfold sub2_new. rewrite Ha. split.
+    + constructor; [eexists; reflexivity|constructor].
+    + exists a. split; [first [exact Ha|reflexivity]|]. reflexivity.
+  - inversion P as [|? ? [v Hs] P']; subst. cbn [snd] in Hs. subst s.
+    cbn [sub2_conv map sub_insert fst snd sub2_value].
+    destruct (str_compare k k') eqn:C.
+    + unfold sub2_add in H. rewrite Ha in H.
+      destruct (v_add false v (VAmt a)) as [r|] eqn:V; cbn [bind] in H; [|discriminate].
+      injection H as <-. split.
+      * constructor; [eexists; reflexivity|exact P'].
+      * exists a. split; [first [exact Ha|reflexivity]|]. cbn [Bool.eqb]. rewrite V. cbn [bind]. reflexivity.
+    + injection H as <-. unfold sub2_new. rewrite Ha. split.
+      * constructor; [eexists; reflexivity|]. constructor; [eexists; reflexivity|exact P'].
+      * exists a. split; [first [exact Ha|reflexivity]|]. reflexivity.
+    + destruct (sub2_insert k p m) as [r|] eqn:R; cbn [bind] in H; [|discriminate].
+      injection H as <-. destruct (IH r P' eq_refl) as (Pr & a' & Ha' & S).
+      rewrite Ha in Ha'. injection Ha' as <-. split.
+      * constructor; [eexists; reflexivity|exact Pr].
+      * exists a. split; [first [exact Ha|reflexivity]|]. fold (sub2_conv m). rewrite S. cbn [bind]. reflexivity.
+Qed.
+
+Lemma sub2_feed_sim l : forall m m',
+  Forall plain_post l -> sub2_proper m -> sub2_feed m l = Ok m' ->
+  sub_feed (sub2_conv m) l = Ok (sub2_conv m').
+Proof.
+  induction l as [|p l IH]; intros m m' F P H; cbn [sub2_feed sub_feed] in *.
+  - injection H as <-. reflexivity.
+  - inversion F as [|? ? Fp Fl]; subst.
+    destruct (sub2_insert (pacct p) p m) as [m1|] eqn:I; cbn [bind] in H; [|discriminate].
+    destruct (sub2_insert_sim _ _ _ _ Fp P I) as (P1 & a & Ha & S).
+    unfold post_amount. rewrite Ha. cbn [bind]. rewrite (proj2 Fp), S. cbn [bind].
+    exact (IH m1 m' Fl P1 H).
+Qed.
+
+(* resubtotal on plain postings reports the rows of subtotal_posts: same accounts, same values *)
+Theorem resubtotal_plain l rows :
+  Forall plain_post l -> resubtotal l = Ok rows ->
+  exists rows', subtotal l = Ok rows' /\
+    map pacct rows = map pacct rows' /\ map pamt rows = map pamt rows'.
+Proof.
+  intros F. unfold resubtotal, subtotal, subtotal_group. destruct l as [|p0 l0] eqn:E.
+  - intros [= <-]. exists []. repeat split.
+  - rewrite <- E in *. clear E p0 l0.
+    destruct (sub2_feed [] l) as [m|] eqn:S; cbn [bind]; [|discriminate].
+    intros [= <-]. pose proof (sub2_feed_sim l [] m F (Forall_nil _) S) as S'.
+    change (sub2_conv []) with (@nil (str * (value * bool))) in S'. rewrite S'. cbn [bind].
+    eexists. split; [reflexivity|]. unfold sub_report, sub2_conv. rewrite !map_map. cbn [pacct pamt fst snd].
+    split; reflexivity.
+Qed.
+
+Lemma sum_den_map_pamt l l' c : map pamt l = map pamt l' -> (sum_den l c == sum_den l' c)%Q.
+Proof.
+  revert l'. induction l as [|p l IH]; intros [|p' l'] H; try discriminate; cbn [sum_den]; [lra|].
+  cbn [map] in H. injection H as Hp Hl. rewrite Hp, (IH l' Hl). lra.
+Qed.
+
+Theorem resubtotal_plain_sums l rows :
+  Forall plain_post l -> resubtotal l = Ok rows ->
+  StronglySorted str_lt (map pacct rows) /\
+  (forall a, In a (map pacct rows) <-> exists p, In p l /\ pacct p = a) /\
+  (forall c, (sum_den rows c == sum_den l c)%Q).
+Proof.
+  intros F H. destruct (resubtotal_plain l rows F H) as (rows' & S & A & V).
+  destruct (subtotal_sums l rows' S) as (B1 & B2 & _ & B4).
+  rewrite A. split; [exact B1|]. split; [exact B2|].
+  intros c. rewrite (sum_den_map_pamt rows rows' c V). apply B4.
+Qed.
